@@ -1281,7 +1281,7 @@ func c03xAskMonitor(e *c03Env, i int, op *c03xOp, out c03xOut, inh map[int]uint6
 		if ans.Auth != want {
 			sig := "authorize-any-not-effective"
 			if len(q) == 0 {
-				sig = "authorize-any-empty-set-ignores-role-star"
+				sig = "authorize-any-empty-set-ignores-role-star" // the defect repaired by a58a51d
 			}
 			setFail(i, "effective_set", sig, fmt.Sprintf("op %d: AuthorizeAnyCollectionChannel(%v)=%v, effective set %v (default collection=%v)", i, q, ans.Auth, c03Keys(eff), e.isDefault))
 		}
